@@ -186,6 +186,18 @@ def stage_correspond(mod, cases, obs, tag):
     cdir.mkdir(exist_ok=True)
     for old in cdir.glob(f"Cases_{mod.ID}_{tag}_*"):
         old.unlink()
+    # the modules the case files import (checkers such as Model/WsXCheck.v are not in the closure of the Properties files, so
+    # the prove stage does not rebuild them after a model or generated table changed): bring them up to date first
+    deps = []
+    for lib, names in re.findall(r"From\s+(GV|GVgen)\s+Require\s+(?:Import\s+|Export\s+)?([A-Za-z0-9_.\s]+?)\.(?:\s|$)", mod.CASE_IMPORTS):
+        for nm in names.split():
+            cand = (C.COQ / "generated" / (nm + ".v")) if lib == "GVgen" else (C.COQ / "theories" / Path(*nm.split(".")).with_suffix(".v"))
+            if cand.exists():
+                deps.append(str(cand.relative_to(C.COQ)) + "o")
+    if deps:
+        okd, logd, _ = C.coq_make(sorted(set(deps)))
+        if not okd:
+            log(f"[{mod.ID}] building the case imports failed: {logd[-600:]}")
     files = []
     chunk = int(getattr(mod, "CHUNK", CHUNK))
     for k in range(0, len(terms), chunk):
